@@ -15,6 +15,9 @@ ROOTS = [
     f'{UT}:CountCallbackInvoker.decrement', f'{UT}:CountCallbackInvoker.finalize',
 ]
 
+from .b_legacy import LEGACY_C06
+ROOTS = ROOTS + LEGACY_C06
+
 
 def register(R):
     pass
